@@ -33,6 +33,16 @@ variable {R : Type}
 
 end World
 
+/-! ### rows and columns of mapped lists -/
+
+theorem rowOf_map' {α β : Type} (f : α → β) (l : List α) (n i : Nat) :
+    Cont.rowOf (l.map f) n i = (Cont.rowOf l n i).map f := by
+  simp [Cont.rowOf, List.map_take, List.map_drop]
+
+theorem colOf_map' {α β : Type} (f : α → β) (l : List α) (n k j : Nat) :
+    Cont.colOf (l.map f) n k j = (Cont.colOf l n k j).map f := by
+  simp only [Cont.colOf, List.map_filterMap, List.getElem?_map]
+
 /-! ### records of a container -/
 
 section Recs
@@ -1183,6 +1193,347 @@ theorem matmulCore_eq (a b : Cont R) (m n l : Nat) (outShape : Shape String) (w 
       | ok r => rfl
 
 end Matmul
+
+/-! ### the stored indexes of a constants container are never used -/
+
+section NoInfluence
+variable {R : Type}
+
+/-- the container with its stored indexes replaced -/
+def reindex (g : Nat → Nat) (c : Cont R) : Cont R :=
+  { c with elems := c.elems.map fun e => (e.1, g e.2) }
+
+@[simp] theorem reindex_shape (g : Nat → Nat) (c : Cont R) : (reindex g c).shape = c.shape := rfl
+@[simp] theorem reindex_history (g : Nat → Nat) (c : Cont R) : (reindex g c).history = c.history := rfl
+
+variable [Zero R]
+
+theorem batchX_reindex (g : Nat → Nat) (f dfx : R → R → R) (as bs : List (R × Nat)) (t : Tape R) :
+    Tape.batchX f dfx (as.zip (bs.map fun e => (e.1, g e.2))) t = Tape.batchX f dfx (as.zip bs) t := by
+  induction as generalizing bs t with
+  | nil => simp [Tape.batchX]
+  | cons a as ih =>
+    cases bs with
+    | nil => simp [Tape.batchX]
+    | cons b bs => simp [Tape.batchX, ih]
+
+theorem batchY_reindex (g : Nat → Nat) (f dfy : R → R → R) (as bs : List (R × Nat)) (t : Tape R) :
+    Tape.batchY f dfy ((as.map fun e => (e.1, g e.2)).zip bs) t = Tape.batchY f dfy (as.zip bs) t := by
+  induction as generalizing bs t with
+  | nil => simp [Tape.batchY]
+  | cons a as ih =>
+    cases bs with
+    | nil => simp [Tape.batchY]
+    | cons b bs => simp [Tape.batchY, ih]
+
+theorem zipmap_reindex_right (g : Nat → Nat) (f : R → R → R) (as bs : List (R × Nat)) :
+    ((as.zip (bs.map fun e => (e.1, g e.2))).map fun p => f p.1.1 p.2.1)
+      = (as.zip bs).map fun p => f p.1.1 p.2.1 := by
+  induction as generalizing bs with
+  | nil => simp
+  | cons a as ih =>
+    cases bs with
+    | nil => simp
+    | cons b bs => simp [ih]
+
+theorem zipmap_reindex_left (g : Nat → Nat) (f : R → R → R) (as bs : List (R × Nat)) :
+    (((as.map fun e => (e.1, g e.2)).zip bs).map fun p => f p.1.1 p.2.1)
+      = (as.zip bs).map fun p => f p.1.1 p.2.1 := by
+  induction as generalizing bs with
+  | nil => simp
+  | cons a as ih =>
+    cases bs with
+    | nil => simp
+    | cons b bs => simp [ih]
+
+theorem binary_reindex_right (g : Nat → Nat) (a b : Cont R) (f dfx dfy : R → R → R) (w : World R)
+    (hb : b.history = none) : a.binary (reindex g b) f dfx dfy w = a.binary b f dfx dfy w := by
+  unfold Cont.binary
+  simp only [reindex_shape, reindex_history, hb]
+  split
+  · rfl
+  · cases a.history with
+    | none => simp only [reindex, zipmap_reindex_right]
+    | some h => simp only [reindex, batchX_reindex]
+
+theorem binary_reindex_left (g : Nat → Nat) (a b : Cont R) (f dfx dfy : R → R → R) (w : World R)
+    (ha : a.history = none) : (reindex g a).binary b f dfx dfy w = a.binary b f dfx dfy w := by
+  unfold Cont.binary
+  simp only [reindex_shape, reindex_history, ha]
+  split
+  · rfl
+  · cases b.history with
+    | none => simp only [reindex, zipmap_reindex_left]
+    | some h => simp only [reindex, batchY_reindex]
+
+end NoInfluence
+
+section NoInfluenceMatmul
+variable {R : Type} [Add R] [Mul R] [Zero R] [One R]
+
+/-- a zipped pair with the right element's stored index replaced -/
+def reR (g : Nat → Nat) (p : (R × Nat) × (R × Nat)) : (R × Nat) × (R × Nat) := (p.1, (p.2.1, g p.2.2))
+def reL (g : Nat → Nat) (p : (R × Nat) × (R × Nat)) : (R × Nat) × (R × Nat) := ((p.1.1, g p.1.2), p.2)
+
+theorem zip_reR (g : Nat → Nat) (as bs : List (R × Nat)) :
+    as.zip (bs.map fun e => (e.1, g e.2)) = (as.zip bs).map (reR g) := by
+  induction as generalizing bs with
+  | nil => simp
+  | cons a as ih =>
+    cases bs with
+    | nil => simp
+    | cons b bs => simp [ih, reR]
+
+theorem zip_reL (g : Nat → Nat) (as bs : List (R × Nat)) :
+    (as.map fun e => (e.1, g e.2)).zip bs = (as.zip bs).map (reL g) := by
+  induction as generalizing bs with
+  | nil => simp
+  | cons a as ih =>
+    cases bs with
+    | nil => simp
+    | cons b bs => simp [ih, reL]
+
+theorem reduceProducts_congr (e e' : (R × Nat) × (R × Nat) → Tape R → (R × Nat) × Tape R)
+    (r : (R × Nat) × (R × Nat) → (R × Nat) × (R × Nat)) (he : ∀ p t, e' (r p) t = e p t)
+    (acc : R × Nat) (ps : List ((R × Nat) × (R × Nat))) (t : Tape R) :
+    Cont.reduceProducts e' acc (ps.map r) t = Cont.reduceProducts e acc ps t := by
+  induction ps generalizing acc t with
+  | nil => rfl
+  | cons p ps ih => simp only [List.map_cons, Cont.reduceProducts, he, ih]
+
+theorem scalarProductOnTape_congr (e e' : (R × Nat) × (R × Nat) → Tape R → (R × Nat) × Tape R)
+    (r : (R × Nat) × (R × Nat) → (R × Nat) × (R × Nat)) (he : ∀ p t, e' (r p) t = e p t)
+    (ps : List ((R × Nat) × (R × Nat))) (t : Tape R) :
+    Cont.scalarProductOnTape e' (ps.map r) t = Cont.scalarProductOnTape e ps t := by
+  cases ps with
+  | nil => rfl
+  | cons p ps => simp only [List.map_cons, Cont.scalarProductOnTape, he, reduceProducts_congr e e' r he]
+
+theorem matmulCells_reindex_right (g : Nat → Nat)
+    (e : (R × Nat) × (R × Nat) → Tape R → (R × Nat) × Tape R) (he : ∀ p t, e (reR g p) t = e p t)
+    (as bs : List (R × Nat)) (n l : Nat) (cells : List (Nat × Nat)) (t : Tape R) :
+    Cont.matmulCells e as (bs.map fun x => (x.1, g x.2)) n l cells t
+      = Cont.matmulCells e as bs n l cells t := by
+  induction cells generalizing t with
+  | nil => rfl
+  | cons c cells ih =>
+    obtain ⟨i, j⟩ := c
+    simp only [Cont.matmulCells, RC.colOf_map', zip_reR, scalarProductOnTape_congr e e (reR g) he, ih]
+
+theorem matmulCells_reindex_left (g : Nat → Nat)
+    (e : (R × Nat) × (R × Nat) → Tape R → (R × Nat) × Tape R) (he : ∀ p t, e (reL g p) t = e p t)
+    (as bs : List (R × Nat)) (n l : Nat) (cells : List (Nat × Nat)) (t : Tape R) :
+    Cont.matmulCells e (as.map fun x => (x.1, g x.2)) bs n l cells t
+      = Cont.matmulCells e as bs n l cells t := by
+  induction cells generalizing t with
+  | nil => rfl
+  | cons c cells ih =>
+    obtain ⟨i, j⟩ := c
+    simp only [Cont.matmulCells, RC.rowOf_map', zip_reL, scalarProductOnTape_congr e e (reL g) he, ih]
+
+theorem matmulPlain_reindex_right (g : Nat → Nat) (as bs : List (R × Nat)) (n l : Nat)
+    (cells : List (Nat × Nat)) :
+    Cont.matmulPlain as (bs.map fun x => (x.1, g x.2)) n l cells = Cont.matmulPlain as bs n l cells := by
+  induction cells with
+  | nil => rfl
+  | cons c cells ih =>
+    obtain ⟨i, j⟩ := c
+    simp only [Cont.matmulPlain, RC.colOf_map', zip_reR, List.map_map, ih]
+    rfl
+
+theorem matmulPlain_reindex_left (g : Nat → Nat) (as bs : List (R × Nat)) (n l : Nat)
+    (cells : List (Nat × Nat)) :
+    Cont.matmulPlain (as.map fun x => (x.1, g x.2)) bs n l cells = Cont.matmulPlain as bs n l cells := by
+  induction cells with
+  | nil => rfl
+  | cons c cells ih =>
+    obtain ⟨i, j⟩ := c
+    simp only [Cont.matmulPlain, RC.rowOf_map', zip_reL, List.map_map, ih]
+    rfl
+
+theorem matmulCore_reindex_right (g : Nat → Nat) (a b : Cont R) (m n l : Nat) (sh : Shape String)
+    (w : World R) (hb : b.history = none) :
+    Cont.matmulCore (Cont.entryFor a (reindex g b)) a (reindex g b) m n l sh w
+      = Cont.matmulCore (Cont.entryFor a b) a b m n l sh w := by
+  unfold Cont.matmulCore Cont.entryFor
+  simp only [reindex_history, hb]
+  cases hha : a.history with
+  | none => simp only [Cont.pickHistory, reindex, matmulPlain_reindex_right]
+  | some h =>
+    simp only [Cont.pickHistory, reindex, Option.isSome_some, Option.isSome_none]
+    rw [matmulCells_reindex_right g _ (fun p t => by simp [Cont.productEntry, reR])]
+
+theorem matmulCore_reindex_left (g : Nat → Nat) (a b : Cont R) (m n l : Nat) (sh : Shape String)
+    (w : World R) (ha : a.history = none) :
+    Cont.matmulCore (Cont.entryFor (reindex g a) b) (reindex g a) b m n l sh w
+      = Cont.matmulCore (Cont.entryFor a b) a b m n l sh w := by
+  unfold Cont.matmulCore Cont.entryFor
+  simp only [reindex_history, ha]
+  cases hhb : b.history with
+  | none => simp only [Cont.pickHistory, reindex, matmulPlain_reindex_left]
+  | some h =>
+    simp only [Cont.pickHistory, reindex, Option.isSome_some, Option.isSome_none]
+    rw [matmulCells_reindex_left g _ (fun p t => by simp [Cont.productEntry, reL])]
+
+end NoInfluenceMatmul
+
+/-! ### the two matrix multiplications -/
+
+section MatmulTop
+variable {R : Type} [Field R]
+
+theorem elements_two (d0 d1 : String × Nat) : elements [d0, d1] = d0.2 * d1.2 := by
+  simp [elements, prod]
+
+theorem dims_pos (c : Cont R) (d0 d1 : String × Nat) (hs : c.shape = [d0, d1]) (hc : c.WF) :
+    0 < d0.2 ∧ 0 < d1.2 := by
+  have hl := hc.length_eq
+  rw [hs, elements_two] at hl
+  have hne : c.elems.length ≠ 0 := fun h0 => hc.nonempty (List.eq_nil_of_length_eq_zero h0)
+  rw [hl] at hne
+  constructor
+  · exact Nat.pos_of_ne_zero fun h0 => hne (by simp [h0])
+  · exact Nat.pos_of_ne_zero fun h0 => hne (by simp [h0])
+
+/-- both multiplications, once the shapes are accepted -/
+theorem matmul_accepted (a b : Cont R) (w : World R) (l0 l1 r0 r1 : String × Nat)
+    (outShape : Shape String) (hsa : a.shape = [l0, l1]) (hsb : b.shape = [r0, r1])
+    (ha : a.WF) (hb : b.WF) :
+    (if !areSameList a.history b.history then Outcome.panic PanicKind.explicit
+      else Cont.matmulCore (Cont.entryFor a b) a b l0.2 l1.2 r1.2 outShape w).map asRecs
+      = matmulRecs a.toRecs b.toRecs l0.2 l1.2 r1.2 w := by
+  by_cases hsame : areSameList a.history b.history = true
+  · simp only [hsame, Bool.not_true, Bool.false_eq_true, if_false]
+    exact matmulCore_eq a b _ _ _ _ w hsame
+  · have hf : areSameList a.history b.history = false := by simpa using hsame
+    simp only [hf, Bool.not_false, if_true, Outcome.map]
+    cases hha : a.history with
+    | none => simp [areSameList, hha] at hf
+    | some h =>
+      cases hhb : b.history with
+      | none => simp [areSameList, hha, hhb] at hf
+      | some h' =>
+        have hne : h ≠ h' := by simpa [areSameList, hha, hhb] using hf
+        have ⟨hm, hn'⟩ := dims_pos a l0 l1 hsa ha
+        have ⟨_, hl⟩ := dims_pos b r0 r1 hsb hb
+        rw [toRecs_eq, toRecs_eq, hha, hhb]
+        exact (matmulRecs_cross h h' hne a.elems b.elems _ _ _ hm hn' hl ha.nonempty hb.nonempty w).symm
+
+theorem matmulTensor_eq (a b : Cont R) (w : World R) (l0 l1 r0 r1 : String × Nat)
+    (hsa : a.shape = [l0, l1]) (hsb : b.shape = [r0, r1]) (hn : l1.2 = r0.2)
+    (hnames : l0.1 ≠ r1.1) (ha : a.WF) (hb : b.WF) :
+    (a.matmulTensor b w).map asRecs = matmulRecs a.toRecs b.toRecs l0.2 l1.2 r1.2 w := by
+  have := matmul_accepted a b w l0 l1 r0 r1 [l0, r1] hsa hsb ha hb
+  rw [← this]
+  unfold Cont.matmulTensor Cont.matmulTensorWith
+  simp only [hsa, hsb, Cont.dims2, hn, ne_eq, not_true_eq_false, if_false, hnames]
+
+theorem matmulMatrix_eq (a b : Cont R) (w : World R) (l0 l1 r0 r1 : String × Nat)
+    (hsa : a.shape = [l0, l1]) (hsb : b.shape = [r0, r1]) (hn : l1.2 = r0.2)
+    (ha : a.WF) (hb : b.WF) :
+    (a.matmulMatrix b w).map asRecs = matmulRecs a.toRecs b.toRecs l0.2 l1.2 r1.2 w := by
+  have := matmul_accepted a b w l0 l1 r0 r1 [(l0.1, l0.2), (l1.1, r1.2)] hsa hsb ha hb
+  rw [← this]
+  unfold Cont.matmulMatrix
+  simp only [hsa, hsb, Cont.dims2, hn, ne_eq, not_true_eq_false, if_false]
+
+theorem cellsOf_length (m l : Nat) : (Cont.cellsOf m l).length = m * l := by
+  simp only [Cont.cellsOf, List.length_flatMap, List.length_map, List.length_range]
+  induction m with
+  | zero => simp
+  | succ m ih => simp [List.range_succ, ih, Nat.succ_mul]
+
+theorem matmulCells_length (e : (R × Nat) × (R × Nat) → Tape R → (R × Nat) × Tape R)
+    (as bs : List (R × Nat)) (n l : Nat) (cells : List (Nat × Nat)) (t : Tape R)
+    (xs : List (R × Nat)) (t' : Tape R)
+    (h : Cont.matmulCells e as bs n l cells t = .ok (xs, t')) : xs.length = cells.length := by
+  induction cells generalizing t xs t' with
+  | nil =>
+    simp only [Cont.matmulCells] at h
+    injection h with h; injection h with h1 _; subst h1; rfl
+  | cons c cells ih =>
+    obtain ⟨i, j⟩ := c
+    simp only [Cont.matmulCells] at h
+    cases hs : Cont.scalarProductOnTape e ((Cont.rowOf as n i).zip (Cont.colOf bs n l j)) t with
+    | panic k => simp [hs] at h
+    | ok r =>
+      obtain ⟨x, t1⟩ := r
+      simp only [hs] at h
+      cases hr : Cont.matmulCells e as bs n l cells t1 with
+      | panic k => simp [hr] at h
+      | ok r2 =>
+        obtain ⟨xs2, t2⟩ := r2
+        simp only [hr] at h
+        injection h with h; injection h with h1 _; subst h1
+        simp [ih t1 xs2 t2 hr]
+
+theorem matmulPlain_spec (as bs : List (R × Nat)) (n l : Nat) (cells : List (Nat × Nat))
+    (xs : List (R × Nat)) (h : Cont.matmulPlain as bs n l cells = .ok xs) :
+    xs.length = cells.length ∧ ∀ e ∈ xs, e.2 = 0 := by
+  induction cells generalizing xs with
+  | nil =>
+    simp only [Cont.matmulPlain] at h
+    injection h with h; subst h; simp
+  | cons c cells ih =>
+    obtain ⟨i, j⟩ := c
+    simp only [Cont.matmulPlain] at h
+    cases hs : Cont.plainScalarProduct (((Cont.rowOf as n i).zip (Cont.colOf bs n l j)).map fun p => (p.1.1, p.2.1)) with
+    | panic k => simp [hs] at h
+    | ok x =>
+      simp only [hs] at h
+      cases hr : Cont.matmulPlain as bs n l cells with
+      | panic k => simp [hr] at h
+      | ok xs2 =>
+        simp only [hr] at h
+        injection h with h; subst h
+        have := ih xs2 hr
+        refine ⟨by simp [this.1], ?_⟩
+        intro e he
+        simp only [List.mem_cons] at he
+        rcases he with rfl | he
+        · rfl
+        · exact this.2 e he
+
+/-- a result of the shared multiplication loop is a well-formed container of the shape
+    `[(_, m), (_, l)]` -/
+theorem matmulCore_wf (e : (R × Nat) × (R × Nat) → Tape R → (R × Nat) × Tape R) (a b : Cont R)
+    (m n l : Nat) (d0 d1 : String × Nat) (hm : d0.2 = m) (hl : d1.2 = l) (hpos : 0 < m * l)
+    (w : World R) (c' : Cont R) (w' : World R)
+    (h : Cont.matmulCore e a b m n l [d0, d1] w = .ok (c', w')) : c'.WF := by
+  unfold Cont.matmulCore at h
+  cases hp : Cont.pickHistory a.history b.history with
+  | none =>
+    simp only [hp] at h
+    cases hr : Cont.matmulPlain a.elems b.elems n l (Cont.cellsOf m l) with
+    | panic k => simp [hr] at h
+    | ok xs =>
+      simp only [hr] at h
+      injection h with h; injection h with h1 _; subst h1
+      have hs := matmulPlain_spec _ _ _ _ _ _ hr
+      refine ⟨by simp [hs.1, cellsOf_length, elements_two, hm, hl], ?_, fun _ => hs.2⟩
+      intro hnil
+      simp only at hnil
+      have := hs.1
+      rw [hnil, cellsOf_length] at this
+      simp only [List.length_nil] at this
+      omega
+  | some hh =>
+    simp only [hp] at h
+    cases hr : Cont.matmulCells e a.elems b.elems n l (Cont.cellsOf m l) (w hh) with
+    | panic k => simp [hr] at h
+    | ok r =>
+      obtain ⟨xs, t⟩ := r
+      simp only [hr] at h
+      injection h with h; injection h with h1 _; subst h1
+      have hlen := matmulCells_length _ _ _ _ _ _ _ _ _ hr
+      refine ⟨by simp [hlen, cellsOf_length, elements_two, hm, hl], ?_, by simp⟩
+      intro hnil
+      simp only at hnil
+      rw [hnil, cellsOf_length] at hlen
+      simp only [List.length_nil] at hlen
+      omega
+
+end MatmulTop
 
 section Catalogue
 variable {R : Type} [Field R] [RealFns R]
